@@ -314,6 +314,20 @@ def mirror_measures(ctx, kind, o0, o1, perm, n, cid, case):
         ctx.violation(f"{kind}:rebuilt-from-reversed-series:not-the-"
                       "renumbered-network", {**case, "perm": perm}, cid)
         return
+    # time-symmetric visibility measures: mirrored with the nodes
+    for m in ("boundary_corrected_degree", "boundary_corrected_closeness",
+              "trans_betweenness"):
+        ok0, v0 = ctx.call(getattr(o0, m))
+        ok1, v1 = ctx.call(getattr(o1, m))
+        ctx.evals(2)
+        if ok0 and ok1:
+            ctx.count(f"kind:{kind}")
+            if not eq(np.asarray(v0, float)[perm], v1, 1e-9):
+                ctx.violation(f"{kind}:{m}:not-mirrored-by-reversal",
+                              {**case, "orig": v0, "reversed": v1}, cid)
+        elif ok0 != ok1:
+            ctx.violation(f"{kind}:{m}:raises-on-one-labelling",
+                          {**case, "exc": repr(v1 if ok0 else v0)}, cid)
     for m in ("degree", "local_clustering", "closeness", "betweenness"):
         for a, b in (("retarded_", "advanced_"), ("advanced_", "retarded_")):
             ok0, v0 = ctx.call(getattr(o0, a + m))
